@@ -299,6 +299,11 @@ def __getattr__(name):
             _SPY_CACHE[name] = _make_spy_forecaster()
             globals()[name] = _SPY_CACHE[name]
         return _SPY_CACHE[name]
+    if name == "XIncrementForecaster":
+        if name not in _SPY_CACHE:
+            _SPY_CACHE[name] = _make_xinc_forecaster()
+            globals()[name] = _SPY_CACHE[name]
+        return _SPY_CACHE[name]
     if name == "SpyTransformer":
         if name not in _SPY_CACHE:
             _SPY_CACHE[name] = _make_spy_transformer()
@@ -354,3 +359,41 @@ def _make_spy_transformer():
     SpyTransformer.__module__ = "simkit.peers"
     SpyTransformer.__qualname__ = "SpyTransformer"
     return SpyTransformer
+
+
+def _make_xinc_forecaster():
+    from sktime.forecasting.base._sktime import (_OptionalForecastingHorizonMixin,
+                                                 _SktimeForecaster)
+
+    class XIncrementForecaster(_OptionalForecastingHorizonMixin, _SktimeForecaster):
+        """Peer forecaster that really uses exogenous data at predict time: the forecast for
+        time t is the last observed value plus the sum of X's first column over (cutoff, t].
+        It needs every X row between the cutoff and the last requested time point."""
+
+        def __init__(self, scale=1.0):
+            self.scale = scale
+            super(XIncrementForecaster, self).__init__()
+
+        def fit(self, y, X=None, fh=None):
+            self._set_y_X(y, X)
+            self._set_fh(fh)
+            self.last_ = float(y.iloc[-1])
+            self._is_fitted = True
+            return self
+
+        def _predict(self, fh, X=None, return_pred_int=False, alpha=0.05):
+            idx = fh.to_absolute(self.cutoff).to_pandas()
+            out = []
+            for t in idx:
+                if X is None:
+                    out.append(self.last_)
+                    continue
+                rows = X.loc[(X.index > self.cutoff) & (X.index <= t)]
+                expected = int(t - self.cutoff)
+                inc = float(rows.iloc[:, 0].sum()) if len(rows) == expected else float("nan")
+                out.append(self.last_ + self.scale * inc)
+            return pd.Series(out, index=idx)
+
+    XIncrementForecaster.__module__ = "simkit.peers"
+    XIncrementForecaster.__qualname__ = "XIncrementForecaster"
+    return XIncrementForecaster
